@@ -21,6 +21,10 @@ Case kinds
 Canonical cells (JSON): None | ["b",bool] | ["i",int] | ["f",bits] | ["s",str] | ["x",hex] | ["t",ns since epoch]
   | ["d",days since epoch] | ["n",unscaled,exp] (decimal, normalised) | ["l",[cells]] | ["?",type name]
   | ["z",ns since epoch (UTC instant),utc offset in s] (time-zone-aware timestamp, round 4)
+  listops    {"kind","cols","tables","container":list|tuple|listsub, "ops":[["from_arrow",size,[iter steps]]|["df"],...]}  (round 6) the SAME
+             container of Arrow tables converted several times; after each conversion the caller's container must be untouched
+Options (round 6): "same_as": j in a schema column = the SAME FlatColumn object as column j; {"copy": how} steps in colops;
+  "ctxprec": n = run under decimal.localcontext(prec=n); how = listsub / tuplesub in stream = a list / tuple SUBCLASS instance
 Options (round 4): "explicit": true in stream / roundtrip / a2o / schema = pass the defaults explicitly (size=None, mappable_as_binary=False,
   use_identities=False by keyword); "np": true in roundtrip = the Python rows hold NumPy scalars (np.int64, np.float64, np.bool_, np.str_)
 """
@@ -78,9 +82,9 @@ DESIGN_REF = "DESIGN.md section 8, C11"
 COQ_IMPORTS = "From Orso Require Import Gen.C11_ArrowMap Model.C11."
 COQ_CHECKS = {"stream": "c11_check_stream", "batch": "c11_check_batch", "roundtrip": "c11_check_roundtrip",
               "o2a": "c11_check_o2a", "a2o": "c11_check_a2o", "schema": "c11_check_schema", "frameops": "c11_check_frameops",
-              "iterops": "c11_check_iterops", "colops": "c11_check_colops"}
+              "iterops": "c11_check_iterops", "colops": "c11_check_colops", "listops": "c11_check_listops"}
 COQ_SHOW = {"stream": "c11_show_stream", "roundtrip": "c11_show_roundtrip", "o2a": "c11_show_o2a", "a2o": "c11_show_a2o",
-            "schema": "c11_show_schema", "frameops": "c11_show_frameops", "iterops": "c11_show_iterops", "colops": "c11_show_colops"}
+            "schema": "c11_show_schema", "frameops": "c11_show_frameops", "iterops": "c11_show_iterops", "colops": "c11_show_colops", "listops": "c11_show_listops"}
 RULE = ("stream: typed Arrow tables (int8..uint64/float/string/bool/binary/timestamp/date/decimal/list columns, nulls anywhere, integers beyond 2^53, "
         "multi-chunk tables) split into a sequence of tables, read through from_arrow(tables, size) with next() called N+2 times; exhaustive over all "
         "splittings of <= 6 rows into <= 4 tables (zero-row tables anywhere) x sizes 0..N+1 and none, then random; batch: process_table with every batch "
@@ -740,6 +744,14 @@ def _mk_flatcolumn(spec):
     return FlatColumn(**kw)
 
 
+class _ListSub(list):
+    """A list subclass instance (a caller's own container type)."""
+
+
+class _TupleSub(tuple):
+    """A tuple subclass instance."""
+
+
 def _observe_stream(case):
     from orso.converters import from_arrow
     from orso.dataframe import DataFrame
@@ -757,7 +769,7 @@ def _observe_stream(case):
             nxt = df.fetchone
         else:
             arg = {"list": lambda: list(tables), "tuple": lambda: tuple(tables), "gen": lambda: (t for t in tables),
-                   "single": lambda: tables[0]}[how]()
+                   "single": lambda: tables[0], "listsub": lambda: _ListSub(tables), "tuplesub": lambda: _TupleSub(tables)}[how]()
             if case.get("explicit"):
                 it, schema = from_arrow(arg, size=size)          # the default spelled out (size=None) / by keyword
             else:
@@ -890,7 +902,9 @@ def _observe_schema(case):
     from orso.schema import RelationSchema, convert_arrow_schema_to_orso_schema, convert_orso_schema_to_arrow_schema
 
     try:
-        cols = [_mk_flatcolumn(c) for c in case["cols"]]
+        cols = []
+        for c in case["cols"]:
+            cols.append(cols[c["same_as"]] if "same_as" in c else _mk_flatcolumn(c))   # "same_as": the very same object again
         schema = RelationSchema(name="s", columns=cols)
     except Exception as e:
         return {"ctor": _exc(e)}
@@ -972,21 +986,12 @@ def _observe_frameops(case):
     return {"outs": outs}
 
 
-def _observe_iterops(case):
+def _iter_steps(it, ops):
+    """Run the consumption steps of an iterops / listops case on the iterator object; one list of canonical rows per step."""
     import itertools as IT
 
-    from orso.converters import from_arrow
-
-    tables = [_build_table(case["cols"], t) for t in case["tables"]]
-    how, size = case["how"], case["size"]
-    try:
-        arg = {"list": lambda: list(tables), "tuple": lambda: tuple(tables), "gen": lambda: (t for t in tables),
-               "single": lambda: tables[0]}[how]()
-        it, _schema = from_arrow(arg) if size is None else from_arrow(arg, size)
-    except Exception as e:
-        return {"raise": _exc(e)}
     outs = []
-    for op in case["ops"]:
+    for op in ops:
         try:
             if op[0] == "next":
                 r = next(it, None)
@@ -1014,7 +1019,50 @@ def _observe_iterops(case):
             outs.append({"raise": _exc(e)})
             break
         outs.append([[canon(x) for x in r] for r in got])
-    return {"outs": outs}
+    return outs
+
+
+def _observe_listops(case):
+    from orso.converters import from_arrow
+    from orso.dataframe import DataFrame
+
+    tables = [_build_table(case["cols"], t) for t in case["tables"]]
+    box = {"list": list, "tuple": tuple, "listsub": _ListSub}[case["container"]](tables)   # the caller's own container
+    obs = {"outs": []}
+    for op in case["ops"]:
+        o = {}
+        try:
+            if op[0] == "df":
+                df = DataFrame.from_arrow(box)
+                o["names"] = list(df.column_names)
+                df.materialize()
+                o["steps"] = [[[canon(x) for x in df.row(i)] for i in range(df.rowcount)]]
+            else:
+                it, schema = from_arrow(box) if op[1] is None else from_arrow(box, op[1])
+                o["names"] = None if isinstance(schema, dict) else [c.name for c in schema.columns]
+                o["steps"] = _iter_steps(it, op[2])
+        except Exception as e:
+            o["raise"] = _exc(e)
+        o["left"] = len(box)
+        o["same"] = len(box) == len(tables) and all(a is b for a, b in zip(box, tables))
+        obs["outs"].append(o)
+        if "raise" in o:
+            break
+    return obs
+
+
+def _observe_iterops(case):
+    from orso.converters import from_arrow
+
+    tables = [_build_table(case["cols"], t) for t in case["tables"]]
+    how, size = case["how"], case["size"]
+    try:
+        arg = {"list": lambda: list(tables), "tuple": lambda: tuple(tables), "gen": lambda: (t for t in tables),
+               "single": lambda: tables[0]}[how]()
+        it, _schema = from_arrow(arg) if size is None else from_arrow(arg, size)
+    except Exception as e:
+        return {"raise": _exc(e)}
+    return {"outs": _iter_steps(it, case["ops"])}
 
 
 COL_ATTRS = {"type": "type", "elem": "element_type", "p": "precision", "s": "scale", "name": "name", "nullable": "nullable"}
@@ -1037,6 +1085,18 @@ def _observe_colops(case):
                 v = OrsoTypes[v]
             setattr(c, COL_ATTRS[op[1]], v)
             obs["outs"].append({})
+            continue
+        if op[0] == "copy":
+            import copy
+            import pickle
+
+            try:
+                c = {"copy": copy.copy, "deepcopy": copy.deepcopy, "pickle": lambda x: pickle.loads(pickle.dumps(x))}[op[1]](c)
+                schema = RelationSchema(name="s", columns=[c])   # the session goes on with the copy
+                obs["outs"].append({})
+            except Exception as e:
+                obs["outs"].append({"raise": _exc(e)})
+                break
             continue
         o = {"cur": _col_obs(c)}
         try:
@@ -1063,6 +1123,16 @@ def _observe_colops(case):
 
 
 def observe(case):
+    if case.get("ctxprec"):
+        with decimal.localcontext() as ctx:   # the caller's decimal context must not leak into the conversion
+            ctx.prec = case["ctxprec"]
+            return _observe(case)
+    return _observe(case)
+
+
+def _observe(case):
+    if case["kind"] == "listops":
+        return _observe_listops(case)
     if case["kind"] == "frameops":
         return _observe_frameops(case)
     if case["kind"] == "iterops":
@@ -1332,9 +1402,18 @@ def _oracle_a2o(case, obs, tol):
     return _field_col_why(obs["field"], c)
 
 
+def _schema_specs(case):
+    """The column requests of a schema case, "same_as" resolved to the request of the object it repeats."""
+    out = []
+    for c in case["cols"]:
+        out.append(out[c["same_as"]] if "same_as" in c else c)
+    return out
+
+
 def _oracle_schema(case, obs, tol):
     if "ctor" in obs:
         return None
+    case = dict(case, cols=_schema_specs(case))
     cols = obs["cols"]
     fs = obs["fields"]
     if isinstance(fs, dict):
@@ -1410,23 +1489,15 @@ def _iter_expect(op, remaining):
     return len(remaining)
 
 
-def _oracle_iterops(case, obs, tol):
-    """However the rows iterator is consumed, step by step on the same object, the steps deliver the Arrow rows once each, in order,
-    cut to the size: every step takes the next rows."""
-    if "raise" in obs:
-        return "from_arrow raised " + obs["raise"]
-    rows = [r for t in case["tables"] for r in _table_rows(t)]
-    size = case["size"]
-    if size == 0:
-        return None  # outside the quantifier
+def _steps_why(rows, size, steps, outs, flags, tol, label):
+    """The consumption steps of one iterator over `rows` cut to `size`: every step must deliver exactly the next rows."""
     remaining = rows if size is None else rows[:size]
-    flags = _col_flags(rows)
     at = 0
-    for k, op in enumerate(case["ops"]):
-        what = "step %d (%s) on the same iterator" % (k + 1, " ".join(str(x) for x in op))
-        if k >= len(obs["outs"]):
+    for k, op in enumerate(steps):
+        what = "%sstep %d (%s) on the same iterator" % (label, k + 1, " ".join(str(x) for x in op))
+        if k >= len(outs):
             return what + ": not reached"
-        got = obs["outs"][k]
+        got = outs[k]
         if isinstance(got, dict):
             return "%s raised %s" % (what, got["raise"])
         n = min(_iter_expect(op, remaining), len(remaining))
@@ -1445,6 +1516,44 @@ def _oracle_iterops(case, obs, tol):
     return None
 
 
+def _oracle_iterops(case, obs, tol):
+    """However the rows iterator is consumed, step by step on the same object, the steps deliver the Arrow rows once each, in order,
+    cut to the size: every step takes the next rows."""
+    if "raise" in obs:
+        return "from_arrow raised " + obs["raise"]
+    rows = [r for t in case["tables"] for r in _table_rows(t)]
+    if case["size"] == 0:
+        return None  # outside the quantifier
+    return _steps_why(rows, case["size"], case["ops"], obs["outs"], _col_flags(rows), tol, "")
+
+
+def _oracle_listops(case, obs, tol):
+    """Converting the caller's container of tables gives the Arrow rows EVERY time it is converted, and leaves the container alone."""
+    rows = [r for t in case["tables"] for r in _table_rows(t)]
+    names = [c["name"] for c in case["cols"]]
+    flags = _col_flags(rows)
+    for k, op in enumerate(case["ops"]):
+        label = "conversion %d (%s) of the same %s of %d tables: " % (k + 1, op[0] if op[0] == "df" else "from_arrow size=%s" % op[1],
+                                                                       case["container"], len(case["tables"]))
+        if k >= len(obs["outs"]):
+            return label + "not reached"
+        o = obs["outs"][k]
+        if "raise" in o:
+            return label + "raised " + o["raise"]
+        if o["left"] != len(case["tables"]) or not o["same"]:
+            return label + "the caller's container was changed by the call: it holds %d of its %d tables" % (o["left"], len(case["tables"]))
+        if op[0] != "df" and op[1] == 0:
+            continue
+        if case["tables"] and o["names"] != names:
+            return label + "column names %r, the tables have %r" % (o["names"], names)
+        why = _steps_why(rows, None if op[0] == "df" else op[1], [["list"]] if op[0] == "df" else op[2], o["steps"], flags, tol, label)
+        if why:
+            return why
+        if o["left"] != len(case["tables"]) or not o["same"]:
+            return label + "the caller's container was changed by the call: it holds %d of its %d tables" % (o["left"], len(case["tables"]))
+    return None
+
+
 def _oracle_colops(case, obs, tol):
     """A column's Arrow field describes the column AS IT IS when the field is read: after attributes were assigned in place the
     typing clause holds of the current attributes, and the field carries the current name (or the identity)."""
@@ -1455,6 +1564,10 @@ def _oracle_colops(case, obs, tol):
         if op[0] == "set":
             cur[op[1]] = op[2]
             continue
+        if op[0] == "copy":
+            if "raise" in o:
+                return "step %d (%s of the column) raised %s" % (k + 1, op[1], o["raise"])
+            continue  # a copy is an equal, independent object: nothing changes
         what = "step %d (%s) on the same column object, now %s named %r" % (k + 1, " ".join(str(x) for x in op), _tdesc(cur), cur["name"])
         for a in ("type", "elem", "p", "s", "name", "nullable"):
             if o["cur"][a] != cur[a]:
@@ -1481,7 +1594,7 @@ def _oracle_colops(case, obs, tol):
     return None
 
 
-_ORACLES = {"iterops": _oracle_iterops, "colops": _oracle_colops, "frameops": _oracle_frameops, "stream": _oracle_stream, "batch": _oracle_batch, "roundtrip": _oracle_roundtrip, "o2a": _oracle_o2a,
+_ORACLES = {"listops": _oracle_listops, "iterops": _oracle_iterops, "colops": _oracle_colops, "frameops": _oracle_frameops, "stream": _oracle_stream, "batch": _oracle_batch, "roundtrip": _oracle_roundtrip, "o2a": _oracle_o2a,
             "a2o": _oracle_a2o, "schema": _oracle_schema}
 
 
@@ -1489,9 +1602,40 @@ def oracle(case, obs, tol=()):
     return _ORACLES[case["kind"]](case, obs, tol)
 
 
+def _f7_variant(case):
+    """F-C11-7: in an Arrow table with a REPEATED column name, an integer column that shares its name with a string column comes back
+    as strings ('1' for 1; inside batch.to_pandas() in the compiled process_table).  Returns the case with exactly those expected cells
+    rewritten, or None when the guard does not hold."""
+    k = case["kind"]
+    if k == "roundtrip":
+        names = case["names"]
+        cols = list(zip(*case["rows"])) if case["rows"] else []
+        kinds = [({c[0] for c in col if c is not None} or {None}) for col in cols]
+        kinds = [next(iter(x)) if len(x) == 1 else "?" for x in kinds]
+    elif k in ("stream", "iterops", "listops", "frameops", "batch"):
+        names = [c["name"] for c in case["cols"]]
+        kinds = ["i" if c["t"][0] in INT_TYPES else "s" if c["t"][0] in ("string", "large_string") else "?" for c in case["cols"]]
+    else:
+        return None
+    if len(kinds) != len(names):
+        return None
+    hit = [j for j, n in enumerate(names) if kinds[j] == "i" and any(m == n and kinds[i] == "s" for i, m in enumerate(names) if i != j)]
+    if not hit:
+        return None
+
+    def row(r):
+        return [["s", str(c[1])] if j in hit and c is not None and c[0] == "i" else c for j, c in enumerate(r)]
+
+    if k == "roundtrip":
+        return dict(case, rows=[row(r) for r in case["rows"]])
+    if k == "batch":
+        return dict(case, chunks=[[row(r) for r in ch] for ch in case["chunks"]])
+    return dict(case, tables=[[[row(r) for r in ch] for ch in t] for t in case["tables"]])
+
+
 def known(case, obs):
     """F-C11-2 / F-C11-5: exactly the cells the known defect of process_table changes, everything else still compared."""
-    if case["kind"] not in ("stream", "batch", "roundtrip", "frameops", "iterops"):
+    if case["kind"] not in ("stream", "batch", "roundtrip", "frameops", "iterops", "listops"):
         return None
     if oracle(case, obs) is None:
         return None
@@ -1501,6 +1645,9 @@ def known(case, obs):
     for tol in tols:
         if oracle(case, obs, tol) is None:
             return tol[0]
+    v = _f7_variant(case)
+    if v is not None and oracle(v, obs) is None:
+        return "F-C11-7"
     return None
 
 
@@ -1509,6 +1656,8 @@ KNOWN_WITNESSES = {
                 "tables": [[[[["i", 1]], [None], [["i", 2**60 + 1]]]]], "size": None, "how": "list"},
     "F-C11-5": {"kind": "stream", "cols": [{"name": "l", "t": ["list", ["int64"]]}],
                 "tables": [[[[["l", [["i", 1], None, ["i", 2**60 + 1]]]]]]], "size": None, "how": "list"},
+    "F-C11-7": {"kind": "stream", "cols": [{"name": "a", "t": ["int64"]}, {"name": "a", "t": ["string"]}],
+                "tables": [[[[["i", 1], ["s", "x"]]]]], "size": None, "how": "list"},
     "F-C11-6": {"kind": "frameops", "cols": [{"name": "a", "t": ["int64"]}], "tables": [[[[["i", 1]]]]], "source": "rows-list",
                 "ops": [["arrow", None], ["rename", 0, "renamed"], ["arrow", None]]},
 }
@@ -1615,6 +1764,8 @@ def _coq_iop(op):
 
 
 def _coq_cop(op, tid):
+    if op[0] == "copy":
+        return "CCopy"
     if op[0] == "field":
         return "CField"
     if op[0] == "schema":
@@ -1703,7 +1854,7 @@ def to_coq(case, obs):
         back = _coq_result(obs.get("back", {"raise": "ValueError"}), lambda l: _coq_cols(l, tid))
         if fs is None or back is None:
             return None
-        reqs = L.lst(_coq_req(c, tid) for c in case["cols"])
+        reqs = L.lst(_coq_req(c, tid) for c in _schema_specs(case))
         return ("schema", "((%s, %s, %s, %s, %s) : schema_case)" % (L.boolean(case["ids"]), reqs, cols, fs, back))
     if kind == "frameops":
         if "raise" in obs or any("raise" in o for o in obs["outs"]) or len(obs["outs"]) != len(case["ops"]):
@@ -1720,6 +1871,19 @@ def to_coq(case, obs):
             L.lst(_coq_rows(_table_rows(t)) for t in case["tables"]), L.opt(None if case["size"] is None else L.N(case["size"])),
             L.lst(_coq_iop(op) for op in case["ops"]), L.lst(_coq_rows(o) for o in obs["outs"]))
         return ("iterops", term)
+    if kind == "listops":
+        if len(obs["outs"]) != len(case["ops"]) or any("raise" in o or any(isinstance(x, dict) for x in o["steps"]) for o in obs["outs"]):
+            return None
+        ops, outs = [], []
+        for op, o in zip(case["ops"], obs["outs"]):
+            steps = [["list"]] if op[0] == "df" else op[2]
+            if len(o["steps"]) != len(steps):
+                return None
+            size = None if op[0] == "df" else op[1]
+            ops.append("(%s, %s)" % (L.opt(None if size is None else L.N(size)), L.lst(_coq_iop(x) for x in steps)))
+            outs.append("(%s, %s)" % (L.lst(_coq_rows(x) for x in o["steps"]), L.N(o["left"])))
+        term = "((%s, %s, %s) : listops_case)" % (L.lst(_coq_rows(_table_rows(t)) for t in case["tables"]), L.lst(ops), L.lst(outs))
+        return ("listops", term)
     if kind == "colops":
         if "ctor" in obs or len(obs["outs"]) != len(case["ops"]):
             return None
@@ -1729,7 +1893,9 @@ def to_coq(case, obs):
             return None
         outs = []
         for op, o in zip(case["ops"], obs["outs"]):
-            if op[0] == "set":
+            if op[0] in ("set", "copy"):
+                if "raise" in o:
+                    return None
                 outs.append("None")
                 continue
             fs = _coq_result(o["fields"], lambda l: L.lst(_coq_field(f) for f in l))
@@ -2224,6 +2390,89 @@ def _rand_nasty(rng):
     return _nastify(base, rng)
 
 
+# ---- round 6: what happens AROUND the conversion
+LIST_OPS = [["from_arrow", None, [["list"]]], ["from_arrow", 2, [["list"]]], ["from_arrow", None, [["next"]]],
+            ["from_arrow", 1, [["islice", 1], ["list"]]], ["from_arrow", None, [["islice", 2]]], ["df"]]
+
+
+def _list_grid():
+    """The same container of tables converted two (three) times: every ordered pair of {everything, capped preview, sniff one row,
+    first page, a DataFrame} x list / tuple / list subclass x three streams."""
+    k = 0
+    for n, comp in [(3, (1, 2)), (5, (2, 0, 3)), (4, (4,))]:
+        for box in ("list", "tuple", "listsub"):
+            seqs = [[a, b] for a in LIST_OPS for b in LIST_OPS] + [[LIST_OPS[1], LIST_OPS[3], LIST_OPS[0]], [LIST_OPS[5], LIST_OPS[5], LIST_OPS[5]]]
+            for seq in seqs:
+                spec = SECOND[k % len(SECOND)]
+                rows = _small_rows(n, spec)
+                tables, at = [], 0
+                for c in comp:
+                    tables.append([rows[at:at + c]])
+                    at += c
+                yield {"kind": "listops", "cols": [{"name": "id", "t": ["int64"]}, {"name": "v", "t": spec}], "tables": tables,
+                       "container": box, "ops": [[op[0]] if op[0] == "df" else [op[0], op[1], [list(x) for x in op[2]]] for op in seq]}
+                k += 1
+
+
+def _rand_listops(rng):
+    c = _rand_stream(rng)
+    n = sum(len(ch) for t in c["tables"] for ch in t)
+    ops = []
+    for _ in range(rng.randint(2, 4)):
+        if c["tables"] and rng.random() < 0.25:
+            ops.append(["df"])
+        else:
+            steps = _rand_iterops(rng)["ops"] if rng.random() < 0.3 else [["list"]]
+            ops.append(["from_arrow", rng.choice([None, None, 1, 2, max(1, n - 1), n + 1]), steps])
+    return {"kind": "listops", "cols": c["cols"], "tables": c["tables"], "container": rng.choice(["list", "list", "tuple", "listsub"]), "ops": ops}
+
+
+def _around_grid():
+    """Repeated column names, the same column object twice, copies of a column, container subclasses, a narrow decimal context."""
+    dec = lambda nm, p, sc: _colspec("DECIMAL", p=p, s=sc, name=nm)
+    for ids in (False, True):
+        yield {"kind": "schema", "cols": [_colspec("INTEGER", name="id"), _colspec("VARCHAR", name="id")], "ids": ids}
+        yield {"kind": "schema", "cols": [dec("x", 10, 2), dec("x", 38, 0), _colspec("DATE", name="y"), _colspec("DOUBLE", name="x")], "ids": ids}
+        yield {"kind": "schema", "cols": [_colspec("INTEGER", name="a"), {"same_as": 0}], "ids": ids}
+        yield {"kind": "schema", "cols": [dec("d", 10, 2), _colspec("VARCHAR", name="v"), {"same_as": 0}, {"same_as": 1}, {"same_as": 0}], "ids": ids,
+               "explicit": True}
+        yield {"kind": "schema", "cols": [_colspec("ARRAY", elem="INTEGER", name="l"), _colspec("ARRAY", elem="VARCHAR", name="l")], "ids": ids}
+    for names, mid in [(x, y) for x in (["a", "a", "b"], ["a", "b", "a"], ["a", "a", "a"]) for y in ("string", "float64")]:
+        # (an integer and a string column of one name fall under F-C11-7; the float variant keeps repeated names going through Coq)
+        rows = [[["i", 1], ["s", "a"] if mid == "string" else ["f", _bits(1.5)], ["i", 10]], [["i", 2], None, ["i", 20]]]
+        acols = [{"name": n, "t": t} for n, t in zip(names, (["int64"], [mid], ["int64"]))]
+        for how in ("list", "df", "gen", "listsub", "tuplesub"):
+            yield {"kind": "stream", "cols": acols, "tables": [[rows[:1]], [rows[1:]]], "size": None, "how": how}
+        yield {"kind": "roundtrip", "names": list(names), "rows": rows, "size": None, "lazy": False}
+        yield {"kind": "roundtrip", "names": list(names), "rows": rows, "size": 1, "lazy": True}
+        yield {"kind": "frameops", "cols": acols, "tables": [[rows]], "source": "arrow-list", "ops": [["arrow", None], ["arrow", 1]]}
+        yield {"kind": "frameops", "cols": acols, "tables": [[rows]], "source": "rows-list", "ops": [["arrow", None], ["rowcount"]]}
+        yield {"kind": "listops", "cols": acols, "tables": [[rows[:1]], [rows[1:]]], "container": "list", "ops": [["from_arrow", 1, [["list"]]], ["df"]]}
+    for how in ("listsub", "tuplesub"):
+        cols = [{"name": "id", "t": ["int64"]}, {"name": "v", "t": ["string"]}]
+        r = _small_rows(4, ["string"])
+        for size in (None, 3):
+            yield {"kind": "stream", "cols": cols, "tables": [[r[:2]], [[]], [r[2:]]], "size": size, "how": how}
+    for col in (_colspec("INTEGER"), dec("d", 10, 2), _colspec("ARRAY", elem="DATE"), _colspec("TIMESTAMP", nullable=False)):
+        for how in ("copy", "deepcopy", "pickle"):
+            yield {"kind": "colops", "col": dict(col), "ops": [["copy", how], ["field"], ["schema", True]]}
+            yield {"kind": "colops", "col": dict(col), "ops": [["field"], ["copy", how], ["set", "name", "renamed"], ["set", "type", "DOUBLE"], ["field"],
+                                                               ["schema", False]]}
+            yield {"kind": "colops", "col": dict(col), "ops": [["schema", True], ["set", "type", "VARCHAR"], ["copy", how], ["schema", True], ["field"]]}
+    wide = ["n", 12345678901234567890123456780123456789, -10]
+    for prec in (5, 28, 50):
+        yield dict(_o2a("DECIMAL", p=38, s=10), ctxprec=prec)
+        yield dict(_o2a("DECIMAL", p=29, s=1), ctxprec=prec)
+        yield dict(_o2a("DECIMAL", byname="DECIMAL(38,10)"), ctxprec=prec)
+        yield {"kind": "a2o", "field": {"name": "d", "nullable": False, "t": ["decimal128", 38, 10]}, "mab": False, "ctxprec": prec}
+        yield {"kind": "schema", "cols": [dec("d", 38, 10), dec("e", 10, 0)], "ids": False, "ctxprec": prec}
+        yield {"kind": "stream", "cols": [{"name": "k", "t": ["int64"]}, {"name": "d", "t": ["decimal128", 38, 10]}],
+               "tables": [[[[["i", 1], wide], [["i", 2], None]]]], "size": None, "how": "df", "ctxprec": prec}
+        yield {"kind": "roundtrip", "names": ["k", "d"], "rows": [[["i", 1], wide], [["i", 2], ["n", 15, -1]]], "size": None, "lazy": False,
+               "ctxprec": prec}
+        yield {"kind": "colops", "col": dec("d", 38, 10), "ops": [["field"], ["set", "s", 0], ["schema", False]], "ctxprec": prec}
+
+
 def _rand_frameops(rng):
     ncols = rng.randint(1, 4)
     cols = [{"name": rng.choice(["a", "name", "été", "x y", "Col"]) + str(j), "t": rng.choice(RT_SPECS)} for j in range(ncols)]
@@ -2383,6 +2632,10 @@ def exhaustive(tier):
             yield c
         for c in _value_grid():
             yield c
+        for c in _list_grid():
+            yield c
+        for c in _around_grid():
+            yield c
 
     return it(), ("all splittings of 0..%d rows into 1..4 tables (zero-row tables anywhere) x size limits none, 0, 1..N+1 (and the empty table list); "
                   "every OrsoTypes member, every element type (by member and by name), every DECIMAL(p,s) with 0<=s<=p<=38, p>=1; "
@@ -2441,6 +2694,9 @@ def generate(rng, tier):
     # round 4: random cases of every kind with names / string cells from the pool of awkward texts
     for _ in range(250 if tier == "quick" else 3000):
         yield _rand_nasty(rng)
+    # round 6: the caller's container of tables converted several times
+    for _ in range(120 if tier == "quick" else 1500):
+        yield _rand_listops(rng)
 
 
 def corpus():
@@ -2465,6 +2721,11 @@ def corpus():
     for src in ("arrow-gen", "arrow-list", "rows-gen"):
         yield {"kind": "frameops", "cols": id_col, "tables": [t1, [[]], t2], "source": src,
                "ops": [["arrow", None], ["arrow", None], ["rowcount"], ["arrow", 2]]}
+    # round 6 (seeded C11-r6s1 / -r6s2): a preview then everything from the same list; two columns of one name
+    yield {"kind": "listops", "cols": id_col, "tables": [t1, [[]], t2], "container": "list",
+           "ops": [["from_arrow", 2, [["list"]]], ["from_arrow", None, [["list"]]], ["df"]]}
+    yield {"kind": "schema", "cols": [_colspec("INTEGER", name="id"), _colspec("VARCHAR", name="id")], "ids": False}
+    yield {"kind": "schema", "cols": [_colspec("INTEGER", name="a"), {"same_as": 0}], "ids": True}
     # round 4 (seeded C11-r4s2): a name that is not in NFC form carries over code point by code point
     yield {"kind": "a2o", "field": {"name": "cafe\u0301", "nullable": False, "t": ["int64"]}, "mab": False}
     yield {"kind": "stream", "cols": [{"name": "cafe\u0301", "t": ["int64"]}, {"name": "caf\u00e9", "t": ["string"]}],
@@ -2504,6 +2765,8 @@ def search(rng):
             yield _rand_colops(rng)
         for _ in range(15):
             yield _rand_nasty(rng)
+        for _ in range(10):
+            yield _rand_listops(rng)
         ms = _members()
         t = rng.choice(ms)
         yield _o2a(t, elem=rng.choice(ms) if t == "ARRAY" else None,
@@ -2576,6 +2839,20 @@ def shrink(case):
         ops = case["ops"]
         for i in range(len(ops)):
             yield dict(case, ops=ops[:i] + ops[i + 1:])
+    elif k == "listops":
+        ops, ts = case["ops"], case["tables"]
+        for i in range(len(ops)):
+            yield dict(case, ops=ops[:i] + ops[i + 1:])
+        if len(ts) > 1:
+            for i in range(len(ts)):
+                yield dict(case, tables=ts[:i] + ts[i + 1:])
+        for i, t in enumerate(ts):
+            for a, ch in enumerate(t):
+                for b in range(len(ch)):
+                    yield dict(case, tables=ts[:i] + [t[:a] + [ch[:b] + ch[b + 1:]] + t[a + 1:]] + ts[i + 1:])
+        for i, op in enumerate(ops):
+            if op[0] == "from_arrow" and op[2] != [["list"]]:
+                yield dict(case, ops=ops[:i] + [["from_arrow", op[1], [["list"]]]] + ops[i + 1:])
     elif k == "batch":
         chs = case["chunks"]
         for a, ch in enumerate(chs):
@@ -2601,6 +2878,8 @@ def nontrivial_key(case, obs):
     if k == "schema" and not case["cols"]:
         return None
     if k in ("o2a", "schema") and "ctor" in obs:
+        return None
+    if k == "listops" and not any(x for o in obs.get("outs", []) for x in o.get("steps", []) if not isinstance(x, dict)):
         return None
     if k == "iterops" and not any(o for o in obs.get("outs", []) if not isinstance(o, dict)):
         return None
@@ -2638,6 +2917,11 @@ def classify(case, obs):
             yield "o2a:arrow_field-raised"
     elif k == "a2o":
         yield "a2o:" + ("raised" if "raise" in obs["col"] else str(obs["col"]["type"]))
+    elif k == "listops":
+        yield "listops:container=" + case["container"]
+        yield "listops:conversions=%d" % len(case["ops"])
+        for op in case["ops"]:
+            yield "listops:" + (op[0] if op[0] == "df" else "from_arrow-" + ("all" if op[1] is None else "capped"))
     elif k == "iterops":
         yield "iterops:steps=%d" % len(case["ops"])
         yield "iterops:how=" + case["how"]
